@@ -71,15 +71,17 @@ def convEffect (s : String) : Effect :=
   else if s == "set:responseBody:reader" then .set .responseBody .reader
   else .other
 
+/-- Strings → the model's enums; conjuncts and the (mutually independent) statements of a block
+are put in canonical order, so reordering them in the source is not a shape change. -/
 def conv (g : Generated.C14Facts.Site) : SiteShape where
-  ask := g.ask.map convAsk
+  ask := canonAsk (g.ask.map convAsk)
   gzipTest := convTest g.gzipTest
   gzipToken := g.gzipToken
-  gzipEffects := g.gzipEffects.map convEffect
-  autoConds := g.autoConds.map convAuto
+  gzipEffects := canonEffects (g.gzipEffects.map convEffect)
+  autoConds := canonAuto (g.autoConds.map convAuto)
   autoGuard := convGuard g.autoGuard
-  autoEffects := g.autoEffects.map convEffect
-  elseEffects := g.elseEffects.map convEffect
+  autoEffects := canonEffects (g.autoEffects.map convEffect)
+  elseEffects := canonEffects (g.elseEffects.map convEffect)
   before := convEffect g.before
   after := convEffect g.after
 
